@@ -66,7 +66,7 @@ THEOREM = {
 }
 NONTRIVIAL = {"fault-while-waiting", "fault-woken-not-run", "fault-while-holding", "throw-refused",
               "handover-by-giveup", "handover-contended", "release-by-non-holder-while-held",
-              "ready-entry-made-positional-woken-lock-waiter", "acquire-raises-on-lock-order-cycle",
+              "ready-entry-made-positional-woken-lock-waiter", "acquire-raises-on-lock-order-cycle", "bystander-acquire-raises-while-cycle-exists",
               "acquire-raises-from-user-priority-callback", "long-queue-with-wakeup-in-flight",
               "contended-acquire-started-eagerly", "duck-typed-priority-task"}
 
